@@ -326,3 +326,50 @@ def allowed_keys_are_examined(cl, mod, cls, func):
 
 
 R.fclause("C14", "runnable/allowed-key-is-examined", "custom", IMPL, fn=allowed_keys_are_examined)
+
+
+# ---------------------------------------------------------------- totality: user-controlled keys are never ordered against each other
+# Mapping keys of the input may be str/int/float/bool/None mixed: `sorted()`, `min()`, `max()` or `.sort()` over them
+# raises TypeError ('<' not supported between 'int' and 'str').  Module-wide clause over configs/validate.py: no such call
+# (without a total `key=` function) takes an argument built from the keys of a function parameter or of a raw_* section.
+def user_keys_are_never_ordered(cl, mod, cls, func):
+    bad = []
+    nfun = 0
+    for fn in ast.walk(mod.tree):
+        if not isinstance(fn, (ast.FunctionDef, ast.AsyncFunctionDef)):
+            continue
+        nfun += 1
+        params = {a.arg for a in fn.args.args + fn.args.kwonlyargs + fn.args.posonlyargs}
+
+        def user_mapping(e):
+            return isinstance(e, ast.Name) and (e.id in params or e.id.startswith("raw") or e.id in ("cfg", "cfg_in", "merged"))
+
+        def key_source(e):
+            for x in ast.walk(e):
+                if isinstance(x, ast.Call):
+                    f = x.func
+                    if isinstance(f, ast.Name) and f.id in ("set", "list", "tuple", "frozenset", "iter") and x.args and user_mapping(x.args[0]):
+                        return True
+                    if isinstance(f, ast.Attribute) and f.attr in ("keys", "items") and user_mapping(f.value):
+                        return True
+                if isinstance(x, (ast.ListComp, ast.SetComp, ast.GeneratorExp)) and any(user_mapping(g.iter) for g in x.generators):
+                    return True
+            return user_mapping(e)
+
+        for n in ast.walk(fn):
+            if not isinstance(n, ast.Call):
+                continue
+            f = n.func
+            is_order = (isinstance(f, ast.Name) and f.id in ("sorted", "min", "max")) or (isinstance(f, ast.Attribute) and f.attr == "sort")
+            if not is_order or any(k.arg == "key" for k in n.keywords):
+                continue
+            args = list(n.args) + ([f.value] if isinstance(f, ast.Attribute) else [])
+            if any(key_source(a) for a in args):
+                bad.append("%s line %d: %s" % (fn.name, n.lineno, ast.unparse(n)[:60]))
+    if bad:
+        return [result(cl["name"], "failed", "keys of a user-supplied mapping are ordered against each other (TypeError for mixed key types): "
+                       + "; ".join(sorted(set(bad))[:6]))]
+    return [result(cl["name"], "proved", where="%d functions scanned" % nfun)]
+
+
+R.fclause("C14", "totality/user-keys-are-never-ordered", "custom", IMPL, fn=user_keys_are_never_ordered)
